@@ -25,7 +25,8 @@ Oracle    the property, on the implementation only (no Lean):
   O2 disjoint   every framer-, frame- or actor-relative reference of every live framer object resolves to the path the
                 original's text gives with the framer's own name substituted, and no two live framer objects resolve a
                 relative reference to the same share.
-  O3 raze       a framer object leaves a frame's aux list only if it is an insular razeable clone (or hangs below one that
+  O3 raze       (also: a razed framer object keeps no clone in its frames' aux lists or in its `.auxes`)
+                a framer object leaves a frame's aux list only if it is an insular razeable clone (or hangs below one that
                 left); from then on it produces no event, its name and the names of everything below it are no longer
                 registered, and every frame of it that was entered has been exited.  A later `rear` may reuse the name.
   O5 kinds      in every act list of every frame of every clone the acts have the classes (Act, Nact, …) of the acts of
@@ -644,7 +645,7 @@ def gen_body(rng, name, letter, later, is_host, shared_reads, force_clone=False)
         items = f["items"]
         # clone clauses
         if later and ((force_clone and k == 0) or rng.random() < (0.75 if is_host else 0.4)):
-            for _ in range(rng.choice([1, 1, 2, 3]) if is_host else 1):
+            for _ in range(rng.choice([1, 1, 2, 3]) if is_host else rng.choice([1, 1, 2, 3, 4])):
                 m = rng.choice(later)
                 if rng.random() < 0.3:
                     items.append({"t": "aux", "of": m, "as": "mine", "via": rng.choice(VIAS_CLONE)})
@@ -779,7 +780,59 @@ def gen_prog(rng):
         if rng.random() < 0.8:
             raze_scenario(rng, framers, [m for m in MOOTS[:nm] if not uses_main([f for f in framers if f["name"] == m][0])], loop=True)
         framers = framers + second
+    trim(rng, framers)
     return {"ticks": rng.choice([4, 6, 8, 10]), "framers": framers, "shared_reads": shared_reads}
+
+
+MAX_MOOT_WEIGHT = 24      # framer objects one clone of a moot creates (itself and the clones nested in it)
+MAX_STATIC = 110          # framer objects the build creates
+
+
+def clone_weights(framers):
+    """name -> number of framer objects one clone of that moot creates; and the number the build creates"""
+    defs = {(f["house"], f["name"]): f for f in framers}
+    memo = {}
+
+    def w(key, seen=()):
+        if key in memo:
+            return memo[key]
+        if key not in defs or key in seen:
+            return 1
+        n = 1
+        for fr in defs[key]["frames"]:
+            for it in fr["items"]:
+                if it["t"] == "aux":
+                    n += w((key[0], it["of"]), seen + (key,))
+        memo[key] = n
+        return n
+    for key in defs:
+        w(key)
+    static = sum(memo[k] for k, f in defs.items() if f["sched"] != "moot")
+    return memo, static
+
+
+def trim(rng, framers):
+    """keeps a script small: nested clone clauses multiply (a moot that nests four clones of a moot that nests four …);
+    drops clone clauses nothing refers to (insular ones first) until the script is below the caps"""
+    for _ in range(200):
+        weights, static = clone_weights(framers)
+        heavy = [f for f in framers if f["sched"] == "moot" and weights[(f["house"], f["name"])] > MAX_MOOT_WEIGHT]
+        if not heavy and static <= MAX_STATIC:
+            return
+        cands = []
+        for f in heavy or framers:
+            text = json.dumps(f)
+            for fr in f["frames"]:
+                clauses = [it for it in fr["items"] if it["t"] == "aux" and (f["house"], it["of"]) in weights
+                           and any(g["sched"] == "moot" and g["name"] == it["of"] and g["house"] == f["house"] for g in framers)]
+                for it in clauses:
+                    if it["as"] in (None, "mine") or text.count('"%s"' % it["as"]) == 1:
+                        cands.append((len(clauses) >= 2, fr, it))
+        if not cands:
+            return
+        spare = [c for c in cands if c[0]]        # a frame keeps one clone clause as long as possible
+        _, fr, it = rng.choice(spare or cands)
+        fr["items"] = [x for x in fr["items"] if x is not it]
 
 
 def raze_scenario(rng, framers, moots, loop=False):
@@ -793,6 +846,25 @@ def raze_scenario(rng, framers, moots, loop=False):
         return
     a, b = rng.sample(kids, 2)
     m = rng.choice(moots)
+    # the reared moot nests 2-4 clones (named and insular) next to each other in one frame, and some in another frame:
+    # razing it has to prune every one of them, whatever their position in the aux list
+    defs = {f["name"]: f for f in framers}
+    names = [f["name"] for f in framers if f["sched"] == "moot"]
+    later = [x for x in MOOTS + ["mx", "my"] if x in names and x > m]
+    if later and rng.random() < 0.7:
+        mframes = defs[m]["frames"]
+        tgt = rng.choice(mframes)
+        used = {it["as"] for f in mframes for it in f["items"] if it["t"] == "aux" and it.get("as")}
+        for j in range(rng.choice([2, 3, 4])):
+            if rng.random() < 0.5:
+                tag = "mine"
+            else:
+                tag = next(t for t in ("r%d" % q for q in range(1, 20)) if t not in used)
+                used.add(tag)
+            tgt["items"].append({"t": "aux", "of": rng.choice(later), "as": tag, "via": rng.choice(VIAS_CLONE)})
+        if len(mframes) > 1 and rng.random() < 0.5:
+            other = rng.choice([f for f in mframes if f is not tgt])
+            other["items"].append({"t": "aux", "of": rng.choice(later), "as": "mine", "via": None})
     for _ in range(rng.choice([1, 1, 2])):
         a["items"].append(act_item("enter", {"k": "rear", "of": m, "frame": b["name"]}))
     a["items"].insert(3, {"t": "go", "far": b["name"], "needs": [{"k": "re", "op": ">=", "v": rng.choice([1, 1, 2])}]})
@@ -1045,6 +1117,8 @@ class CHECK(core.Check):
                "C12_leaf_history_refines_partial / C12_leaf_refines_checkStart_partial for framer objects without "
                "auxiliaries (Frame.leafy), with C12_situation_stable, C12_leaf_touches_only_itself, "
                "C12_leaf_clones_do_not_interfere",
+               "C12_prune_removes_all_nested_clones_partial: the frame loop of Framer.prune removes EVERY clone of a frame "
+               "whatever its position in the aux list (clones without auxiliaries below them, list without duplicates); "
                "C12_raze_leaf_clones_partial / C12_prune_leaf_clone_partial: the exact effect of raze (the named frame loses "
                "exactly the selected razeable insular clones, every other frame and every other framer object is unchanged, "
                "the selected clones end not entered and unregistered, no new name appears) is proved when the selected clones "
@@ -1082,7 +1156,7 @@ class CHECK(core.Check):
                   "copy of the original flagged clone+insular+razeable, fixed main frame, appended to the frame, nothing else "
                   "touched); raze - C12_raze_selects_only_razeable_insular, C12_raze_all_first_last, C12_unregister_frees_name, "
                   "C12_pruned_name_freed, C12_freed_name_reusable, and PARTIAL (clones without auxiliaries below them) "
-                  "C12_raze_leaf_clones_partial (exact effect on the whole house), C12_prune_leaf_clone_partial; behaviour "
+                  "C12_raze_leaf_clones_partial (exact effect on the whole house), C12_prune_removes_all_nested_clones_partial, C12_prune_leaf_clone_partial; behaviour "
                   "(PARTIAL: static trees of framers to any depth, incl. aux-done needs) - C12_tree_refines_partial, "
                   "C12_tree_refines_checkStart_partial, C12_clone_tree_runs_like_original_partial, C12_tree_same_events, "
                   "C12_tree_prefix_maps_ok; (PARTIAL: single framer objects, with frame conditions) - C12_leaf_refines_partial, "
@@ -1210,6 +1284,14 @@ class CHECK(core.Check):
                             t, info[u]["name"], info[u]["insular"], info[u]["razeable"], frame, info[owner]["name"])
             dead = [u for u in prev["live"] if u not in snap["live"]]
             for u in dead:
+                # a pruned framer keeps no clone: every clone below it was pruned too and taken out of its frames' aux
+                # lists and of its own `.auxes`, whatever its position in the list
+                X = obs.seen[u]
+                left = [(fr_.name, a.name) for fr_ in X.frameNames.values() for a in fr_.auxes
+                        if hasattr(a, "original") and not a.original]
+                left += [("auxes", t_) for t_, a in X.auxes.items() if hasattr(a, "original") and not a.original]
+                if left:
+                    return "O3: tick %d: %s was razed but still holds the clones %s (they were not pruned)" % (t, info[u]["name"], left[:4])
                 nm = info[u]["name"]
                 if nm in snap["names"].get(info[u]["house"], set()) and nm not in set(snap["live"].values()):
                     return "O3: tick %d: %s left the aux lists but its name is still registered (not free for the next rear)" % (t, nm)
